@@ -79,9 +79,10 @@ func (p *c13RevPending) add(cs *c13Case, class string, f func(s, i jv) (jv, jv),
 		pc.insts = append(pc.insts, j2)
 		pc.instTxt = append(pc.instTxt, t)
 	}
-	if !changed || len(pc.schemaTxt) > 60000 {
+	if !changed || len(pc.schemaTxt) > 6000 {
 		return
 	}
+	pc.probe = true
 	p.attempts = append(p.attempts, &c13RevAttempt{class: class, probe: pc})
 	*probes = append(*probes, pc)
 }
@@ -220,35 +221,77 @@ func c13ConfirmReverse(c *Cfg, o *c13Oracle, cases []*c13Case) {
 		return
 	}
 	c13RevEvaluate(c, o, pend, probes)
-	// (c) one keyword family deleted — only for what is still unexplained
-	probes = nil
-	var pend2 []*c13RevPending
-	for _, p := range pend {
-		var left []int
-		for _, k := range p.fail {
-			if p.cs.revClass[k] == "" {
-				left = append(left, k)
+	// (c) one keyword family deleted — only for what is still unexplained; the usual suspects
+	// first, the rest only if needed
+	stage := func(prev []*c13RevPending, keys []string) []*c13RevPending {
+		var probes []*c13Case
+		var next []*c13RevPending
+		for _, p := range prev {
+			var left []int
+			for _, k := range p.fail {
+				if p.cs.revClass[k] == "" {
+					left = append(left, k)
+				}
 			}
-		}
-		if len(left) == 0 {
-			continue
-		}
-		q := &c13RevPending{cs: p.cs, fail: left}
-		present := map[string]bool{}
-		for _, k := range c13Keywords(p.cs.schema) {
-			present[k] = true
-		}
-		for _, k := range c13RevDeleteOrder {
-			if present[k] {
-				del := xDeleteKeyword(k)
-				base := p.base
-				q.add(p.cs, "reverse-generate:"+k, func(s, i jv) (jv, jv) { s, i = base(s, i); return del(s, i) }, &probes)
+			if len(left) == 0 {
+				continue
 			}
+			q := &c13RevPending{cs: p.cs, fail: left, base: p.base}
+			present := map[string]bool{}
+			for _, k := range c13Keywords(p.cs.schema) {
+				present[k] = true
+			}
+			for _, k := range keys {
+				if present[k] {
+					del := xDeleteKeyword(k)
+					base := p.base
+					q.add(p.cs, "reverse-generate:"+k, func(s, i jv) (jv, jv) { s, i = base(s, i); return del(s, i) }, &probes)
+				}
+			}
+			next = append(next, q)
 		}
-		pend2 = append(pend2, q)
+		c13RevEvaluate(c, o, next, probes)
+		return next
 	}
-	c13RevEvaluate(c, o, pend2, probes)
-	for _, p := range pend2 {
+	pend = stage(pend, c13RevDeleteOrder[:5])
+	pend = stage(pend, c13RevDeleteOrder[5:])
+	// several lossy keywords at once: the usual suspects deleted together (class: the first present)
+	{
+		var probes []*c13Case
+		var next []*c13RevPending
+		for _, p := range pend {
+			var left []int
+			for _, k := range p.fail {
+				if p.cs.revClass[k] == "" {
+					left = append(left, k)
+				}
+			}
+			if len(left) == 0 {
+				continue
+			}
+			q := &c13RevPending{cs: p.cs, fail: left, base: p.base}
+			first := ""
+			for _, k := range c13RevDeleteOrder[:5] {
+				if first == "" && hasKw(p.cs.schema, k) {
+					first = k
+				}
+			}
+			if first != "" {
+				base := p.base
+				q.add(p.cs, "reverse-generate:"+first, func(s, i jv) (jv, jv) {
+					s, i = base(s, i)
+					for _, k := range c13RevDeleteOrder[:5] {
+						s, i = xDeleteKeyword(k)(s, i)
+					}
+					return s, i
+				}, &probes)
+			}
+			next = append(next, q)
+		}
+		c13RevEvaluate(c, o, next, probes)
+		pend = next
+	}
+	for _, p := range pend {
 		for _, k := range p.fail {
 			if p.cs.revClass[k] == "" {
 				c.Count("unconfirmed-reverse-divergence")
